@@ -247,8 +247,8 @@ def deep_cases():
 
 def run_shard(ctx):
     ctx.enumerate("deep", deep_cases(), check_case)
-    ctx.drive_machine("machine", make_machine(ctx.col, "machine"), ctx.budget(8000, 100000), steps=25 if ctx.tier == "quick" else 50)
+    ctx.drive_machine("machine", make_machine(ctx.col, "machine"), ctx.budget(8000, 60000), steps=25 if ctx.tier == "quick" else 50)
     quick = ctx.tier == "quick"
     ctx.drive("algos", gen.run_case(T_max=200 if quick else 600, n_range=(100, 700) if quick else (100, 2500),
                                     poo_ok_only=True, gpo_ok_only=True, script_prob=0.3),
-              check_case, ctx.budget(3200, 40000))
+              check_case, ctx.budget(3200, 24000))
